@@ -25,7 +25,8 @@
 (*            assignment to the exported fields ("field") or by ApplyConfig*)
 (*            ("apply"); what the client did inside ApplyConfig (dropped   *)
 (*            the connection?  dialled, with which result?) is collected   *)
-(*            from the hooks into this one event                           *)
+(*            from the hooks into this one event (closed, dial: none/ok/   *)
+(*            fail)                                                        *)
 (*   End                              scenario over: everything the        *)
 (*                                    collector saw must be explained      *)
 (*                                                                         *)
@@ -225,19 +226,15 @@ TraceEnq == /\ Step("Enq")
 TraceDeq == /\ Step("Deq") /\ queue # <<>> /\ Head(queue).id = Ev.id
             /\ Dequeue /\ Quiet
 
-\* a configuration change between sends.  The client's state after it is the requested one (ApplyConfig leaves
-\* the capacity alone unless a positive one is given); ApplyConfig drops the connection and dials again exactly if the
-\* license or the server list changed.
+\* a configuration change between sends.  Afterwards the client has the requested license; an assignment gives the
+\* requested capacity (what ApplyConfig makes of its capacity key is taken as observed); whether ApplyConfig dropped
+\* the connection and dialled is taken from the event and must be possible (Reconfig).
 TraceConfig ==
   /\ Step("Config") /\ ~todoErr
-  /\ LET via == Ev.via
-         newcap == IF via = "apply" /\ Ev.qreq <= 0 THEN conf.qcap ELSE Ev.qreq
-         redial == via = "apply" /\ (Ev.lic # conf.deflic \/ Ev.srv # conf.srv) IN
-     /\ Ev.obs_lic = Ev.lic /\ Ev.obs_qcap = newcap
-     /\ Ev.closed = (redial /\ conn # 0)
-     /\ (Ev.dial # "none") = redial
-     /\ Reconfig(via, Ev.lic, newcap, Ev.srv, Ev.dial = "ok")
-     /\ IF Ev.dial = "ok" THEN nst' = 0 /\ wbytes' = 0 ELSE UNCHANGED <<nst, wbytes>>
+  /\ Ev.obs_lic = Ev.lic
+  /\ Ev.via = "field" => Ev.obs_qcap = Ev.qreq
+  /\ Reconfig(Ev.via, Ev.lic, Ev.obs_qcap, Ev.srv, Ev.closed, Ev.dial)
+  /\ IF Ev.dial = "ok" THEN nst' = 0 /\ wbytes' = 0 ELSE UNCHANGED <<nst, wbytes>>
   /\ UNCHANGED <<proph, lics, todo, todoErr>>
 
 TraceListenerDown == Step("ListenerDown") /\ ListenerDown /\ Quiet
